@@ -42,8 +42,18 @@ def record_direct(datas, chars=range(256)):
     for d in datas:
         out.append(pair(A._escape_bytes(d, b'"'), d, 34, origin='_escape_bytes(%r, dq)' % d))
         out.append(pair(A._escape_bytes(d, b"'"), d, 39, origin='_escape_bytes(%r, sq)' % d))
-        line, = list(A.AsciiDirective(d).lines())
-        out.append(pair(_strip(line, b'.ascii ', b'"'), d, 34, origin='AsciiDirective(%r)' % d))
+        lines = list(A.AsciiDirective(d).lines())
+        if len(lines) == 1:
+            out.append(pair(_strip(lines[0], b'.ascii ', b'"'), d, 34, origin='AsciiDirective(%r)' % d))
+        else:
+            # a directive split over several .ascii lines: every line must be well formed on its own (a cut inside
+            # an escape leaves a dangling backslash), and the concatenation must denote the data
+            inner = [_strip(l, b'.ascii ', b'"') for l in lines]
+            for k, t in enumerate(inner):
+                q = pair(t, b'', 34, origin='AsciiDirective(%r) line %d of %d' % (d, k + 1, len(inner)))
+                q['wf_only'] = True
+                out.append(q)
+            out.append(pair(b''.join(inner), d, 34, origin='AsciiDirective(%r) all lines' % d))
     for b in chars:
         imm = bytes(A.IntLiteral(b, is_char=True))
         if imm.startswith(b"'"):
@@ -95,7 +105,9 @@ def record_compiled(datas):
             raise common.Machinery('cannot compile the string-literal program: %s' % e)
         ps, k = pairs_from_assembly(lines, part)
         if k != len(part):
-            raise common.Machinery('expected %d .ascii lines, found %d' % (len(part), k))
+            # the compiler lays strings out differently (e.g. several .ascii lines per string): the pairing by
+            # order is lost, the direct recordings above and the run-time families still judge the data
+            continue
         out += ps
     return out
 
@@ -163,7 +175,7 @@ def run_trace(pairs, workdir=None, timeout=600, coverage=False):
                 got = 'sasm: %s' % e
             res['rejected'].append({'id': i, 'position': pos, 'clause': clause, 'text': p['text'], 'want': p['want'],
                                     'got': got, 'quote': p['quote'], 'char': p['char'], 'origin': p['origin'],
-                                    'has_backslash': 0x5c in p['want']})
+                                    'has_backslash': 0x5c in p['want'], 'wf_only': bool(p.get('wf_only'))})
         res['samples'] = [{'text': repr(p['text']), 'want': repr(p['want']), 'origin': p['origin']}
                           for p in pairs[:2] + pairs[len(pairs) // 2:len(pairs) // 2 + 2]]
         return res
